@@ -356,7 +356,7 @@ def unit_mapping(label):
             raise KeyError(label)
         paths = all_paths(it, lambda: it.call(mm.ns["get_mapped_gp_evaluator_additive"], [kern, Xc.copy(), alpha.copy(), fl], dict(kw)))
         ret, exc = returned(paths)
-        ctx.holds("%s: mapping returns" % label, len(ret) == 1, "%s" % [str(p[1])[:300] for p in exc], fq)
+        ctx.holds("%s: mapping returns" % label, len(ret) == 1, "%s" % [str(p[1])[:300] for p in exc], fq, replay=replay_mapping(label))
         if len(ret) != 1:
             return
         out = ret[0][0]
@@ -423,7 +423,10 @@ def replay_mapping(label):
         al = rng.rand(nctrl)
         errs = []
         for dens in (8, 16):
-            out = get_mapped_gp_evaluator_additive(kern, Xc, al, fl, srbf_density=dens, arbf_density=dens, max_ngrid=400)
+            try:
+                out = get_mapped_gp_evaluator_additive(kern, Xc, al, fl, srbf_density=dens, arbf_density=dens, max_ngrid=400)
+            except Exception as e:
+                return {"reproduced": True, "raised": "%s: %s" % (type(e).__name__, e), "label": label}
             ev = SplineSetEvaluator(*out[:4], **({"const": out[4]} if len(out) == 5 else {}))
             Xs = lo + (hi - lo) * (0.1 + 0.8 * rng.rand(40, nfull))
             res, _ = ev(Xs)
